@@ -421,6 +421,26 @@ fn leak_after_history(cfg: &Cfg) -> Result<(), String> {
     Ok(())
 }
 
+/// Timeouts and durations from just under one second up to a day: the seconds / nanoseconds split of the C structs
+/// (values below one second never touch the seconds field).
+pub fn long_duration_machines() -> Vec<(String, Machine)> {
+    use maybenot::event::Event::*;
+    let mut v = vec![];
+    for us in [999_999.0, 1_000_000.0, 1_000_001.0, 1_500_000.0, 4_294_967.0, 4_294_968.0, 5_000_000.0, 3_600_000_000.0, 86_400_000_000.0] {
+        let b: fam::Budget = (1000, 0.0, u64::MAX, 0.0);
+        v.push((
+            format!("long[{us}us]"),
+            fam::mk(b, vec![
+                fam::st(&[(NormalSent, &[(1, 1.0)]), (NormalRecv, &[(2, 1.0)]), (TunnelRecv, &[(3, 1.0)])], None, (None, None)),
+                fam::st(&[(NormalSent, &[(1, 1.0)]), (NormalRecv, &[(2, 1.0)]), (TunnelRecv, &[(3, 1.0)])], Some(fam::pad(false, true, us, None)), (None, None)),
+                fam::st(&[(NormalSent, &[(1, 1.0)]), (NormalRecv, &[(2, 1.0)]), (TunnelRecv, &[(3, 1.0)])], Some(fam::blk(true, false, us, (us - 1.0).max(0.0), None)), (None, None)),
+                fam::st(&[(NormalSent, &[(1, 1.0)]), (NormalRecv, &[(2, 1.0)]), (TunnelRecv, &[(0, 1.0)])], Some(fam::upd(true, us, None)), (None, None)),
+            ]),
+        ));
+    }
+    v
+}
+
 pub fn configs(q: bool) -> Vec<Cfg> {
     let mut lib: Vec<(String, Machine)> = vec![];
     lib.extend(fam::g1(if q { 23 } else { 7 }));
@@ -428,6 +448,7 @@ pub fn configs(q: bool) -> Vec<Cfg> {
     lib.extend(fam::p_sig());
     lib.extend(fam::p_lim().into_iter().step_by(if q { 2 } else { 1 }));
     lib.extend(fam::p_ctr().into_iter().step_by(if q { 9 } else { 2 }));
+    lib.extend(long_duration_machines());
     let lib: Vec<(String, Machine)> = lib.into_iter().filter(|(_, m)| det_sampling(m)).map(|(n, m)| (n, time_independent(&m))).collect();
     let mut v = fam::singles(&lib, &[(0.0, 0.0)]);
     v.extend(fam::pairs_strided(&lib, 31, 7, &[(0.0, 0.0), (0.5, 0.0)]));
